@@ -12,6 +12,21 @@ Notation rowok := (rowok rules F).
 Notation concl := (concl rules F).
 Notation BC := (BC rules F).
 
+(* a conclusion is about the values stored for the recorded inputs only *)
+Lemma concl_same_gen s s' k v : (forall x, In (mkDep x false false) (deps s k) -> In (mkDep x false false) (deps s' k) /\ stored s' x = stored s x) ->
+  concl s k v -> concl s' k v.
+Proof.
+  intros Hs [Hf Hrec]. unfold ImplInc1.concl in *. cbn zeta in *.
+  assert (Hreq : map (stored s') (r_req (rules k)) = map (stored s) (r_req (rules k))).
+  { apply map_ext_in. intros x Hx. apply Hs, Hrec. apply in_or_app. now left. }
+  rewrite Hreq. set (bk := branch_keys (rules k) (map (stored s) (r_req (rules k)))) in *.
+  assert (Hbk : map (stored s') bk = map (stored s) bk).
+  { apply map_ext_in. intros x Hx. apply Hs, Hrec. apply in_or_app. right. apply in_or_app. now left. }
+  assert (Hdc : map (fun d => snd (payload_of (stored s' d))) (r_disc (rules k)) = map (fun d => snd (payload_of (stored s d))) (r_disc (rules k))).
+  { apply map_ext_in. intros x Hx. destruct (Hs x) as [_ ->]; auto. apply Hrec. apply in_or_app. right. apply in_or_app. now right. }
+  rewrite Hbk, Hdc. split; auto. intros x Hx. apply Hs, Hrec, Hx.
+Qed.
+
 (* the row_ok_changed of SpecInv2: a row stays true when every checked dependency either keeps its value or was recomputed after
    the row was built *)
 Lemma rowok_step s s' k : res_of s' k = res_of s k ->
@@ -26,14 +41,8 @@ Proof.
   intros Hf'.
   assert (Hsame : forall d, In d (deps s k) -> d_order d = false -> d_single d = false -> stored s' (d_key d) = stored s (d_key d) /\ cAt s (d_key d) <= bAt s k).
   { intros d Hd Ho' Hs'. pose proof (Hf' d) as Hx. rewrite Ed, Eb in Hx. specialize (Hx Hd Ho' Hs'). destruct (H d Hd Ho' Hs') as [[E1 E2]|E]; [split; auto; lia|lia]. }
-  destruct Hc as [Hfst Hrec]; [intros d Hd Ho' Hs'; apply (Hsame d Hd Ho' Hs')|].
-  unfold ImplInc1.concl in *. cbn zeta in *.
-  assert (Hreq : map (stored s') (r_req (rules k)) = map (stored s) (r_req (rules k))).
-  { apply map_ext_in. intros x Hx. apply (Hsame (mkDep x false false)); auto. apply Hrec. apply in_or_app. now left. }
-  rewrite Hreq. set (bk := branch_keys (rules k) (map (stored s) (r_req (rules k)))) in *.
-  assert (Hbk : map (stored s') bk = map (stored s) bk).
-  { apply map_ext_in. intros x Hx. apply (Hsame (mkDep x false false)); auto. apply Hrec. apply in_or_app. now right. }
-  rewrite Hbk, Ed. split; auto.
+  assert (Hco : concl s k v) by (apply Hc; intros d Hd Ho' Hs'; apply (Hsame d Hd Ho' Hs')).
+  apply (concl_same_gen s s' k v); auto. intros x Hx. rewrite Ed. split; auto. now apply (Hsame (mkDep x false false)).
 Qed.
 
 Lemma curk_same s s' k : res_of s' k = res_of s k -> kind_of s' k = kind_of s k -> is_epoch s' = is_epoch s -> (curk s' k <-> curk s k).
@@ -46,15 +55,19 @@ Proof. unfold is_in_progress, unsettled. destruct (kind_of s k); try discriminat
 Lemma in_progress_not_idle s k : is_in_progress s k = true -> ~ idle s k.
 Proof. unfold is_in_progress, idle. destruct (kind_of s k); try discriminate; intros _ [H1 H2]; congruence. Qed.
 
+Lemma in_progress_same s s' k : kind_of s' k = kind_of s k -> is_in_progress s' k = is_in_progress s k.
+Proof. unfold is_in_progress. now intros ->. Qed.
+
 (* rules in progress (the set X) change their result; every other rule keeps result and state kind *)
 Lemma BC_change (X : key -> bool) s s' : is_epoch s' = is_epoch s -> (forall k, ri_cancelled (rinfo_of s' k) = false) ->
   (forall k, X k = false -> res_of s' k = res_of s k /\ kind_of s' k = kind_of s k) ->
   (forall k, X k = true -> unsettled s k /\ is_in_progress s' k = true /\ bAt s' k = bAt s k /\
                     (bAt s' k <> 0 -> res_sig (res_of s' k) = r_sig (rules k))) ->
   (forall k, X k = true -> (stored s' k = stored s k /\ cAt s' k = cAt s k) \/ cAt s' k = is_epoch s) ->
+  (forall x, pending_dummy s x -> pending_dummy s' x \/ is_in_progress s' x = true \/ curk s' x) ->
   BC s -> BC s'.
 Proof.
-  intros He Hnc H1 H2 H3 [C1 C2 C3 C4 C5 C6 C7].
+  intros He Hnc H1 H2 H3 Hpd [C1 C2 C3 C4 C5 C6 C7].
   assert (Hidle : forall k, idle s' k -> X k = false).
   { intros k Hi. destruct (X k) eqn:Hx; auto. destruct (H2 k Hx) as (_ & Hp & _). exfalso. now apply (in_progress_not_idle s' k Hp). }
   assert (Hcur : forall k, X k = false -> (curk s' k <-> curk s k)).
@@ -63,6 +76,7 @@ Proof.
   { intros k [Hc _]. destruct (X k) eqn:Hx; auto. destruct (H2 k Hx) as (_ & Hp' & _). exfalso. now apply (in_progress_not_complete s' k Hp'). }
   assert (HcurX0 : forall k, curk s k -> X k = false).
   { intros k [Hc _]. destruct (X k) eqn:Hx; auto. destruct (H2 k Hx) as ((_ & _ & Hp) & _). exfalso. now apply Hp. }
+  assert (Hc1 : forall k, curk s k -> curk s' k) by (intros k Hc; apply (Hcur k (HcurX0 k Hc)); exact Hc).
   assert (Hmono : forall x, (stored s' x = stored s x /\ cAt s x <= cAt s' x) \/ cAt s' x = is_epoch s).
   { intros x. destruct (X x) eqn:Hx.
     - destruct (H3 x Hx) as [[E1 E2]|E]; [left; split; auto; lia|now right].
@@ -79,19 +93,26 @@ Proof.
   - intros k. destruct (X k) eqn:Hx.
     + now destruct (H2 k Hx) as (_ & _ & _ & Hs).
     + destruct (H1 k Hx) as [Hr _]. unfold bAt. rewrite Hr. apply C5.
-  - intros k Hi Hb. pose proof (Hidle k Hi) as Hx. destruct (H1 k Hx) as [Hr Hk].
+  - intros k Hi Hb Hnc'. pose proof (Hidle k Hi) as Hx. destruct (H1 k Hx) as [Hr Hk].
     assert (Hi0 : idle s k) by (unfold idle in *; now rewrite <- Hk).
     assert (Hb0 : bAt s k <> 0) by (unfold bAt in *; now rewrite <- Hr).
+    assert (Hnc0 : ~ curk s k) by (intros H; apply Hnc'; now apply (Hcur k Hx)).
     apply (rowok_step s s' k Hr); [|now apply C6].
     intros d Hd Hord _. destruct (Hmono (d_key d)) as [H|H]; [now left|].
-    (* the dependency was recomputed in this epoch: the row is older, unless it is complete - then its dependencies are, too *)
-    destruct (N.eq_dec (bAt s k) (is_epoch s)) as [Eb|Eb].
-    + assert (Hck : curk s k) by (split; [now apply C4|exact Eb]).
-      pose proof (C7 k Hck d Hd) as Hcd. pose proof (HcurX0 _ Hcd) as Hxd. destruct (H1 _ Hxd) as [Hrd _]. left. unfold stored, cAt. rewrite Hrd. split; auto. lia.
-    + right. rewrite H. destruct (C3 k) as [Hle _]. lia.
-  - intros k Hc d Hd. pose proof (HcurX k Hc) as Hx. destruct (H1 k Hx) as [Hr Hk]. apply (Hcur k Hx) in Hc.
-    assert (Hd0 : In d (deps s k)) by (unfold deps in *; now rewrite <- Hr). pose proof (C7 k Hc d Hd0) as Hcd.
-    apply (Hcur _ (HcurX0 _ Hcd)). exact Hcd.
+    (* the dependency was recomputed in this epoch: the row is older *)
+    right. rewrite H. destruct (C3 k) as [Hle _]. destruct (N.eq_dec (bAt s k) (is_epoch s)) as [Eb|Eb]; [|lia].
+    exfalso. apply Hnc0. split; [now apply C4|exact Eb].
+  - intros k Hc. pose proof (HcurX k Hc) as Hx. destruct (H1 k Hx) as [Hr Hk]. apply (Hcur k Hx) in Hc.
+    destruct (C7 k Hc) as (S1 & S2 & S3). unfold cstruct in *. cbn zeta in *.
+    assert (Ed : deps s' k = deps s k) by (unfold deps; now rewrite Hr).
+    assert (Hreq : map (stored s') (r_req (rules k)) = map (stored s) (r_req (rules k))).
+    { apply map_ext_in. intros x Hx'. destruct (S1 x) as [_ Hcx]; [apply in_or_app; now left|]. destruct (H1 _ (HcurX0 _ Hcx)) as [Hrx _]. unfold stored. now rewrite Hrx. }
+    rewrite Hreq, Ed. split; [|split].
+    + intros x Hx'. destruct (S1 x Hx') as [Hin Hcx]. split; auto.
+    + exact S2.
+    + intros d Hd. destruct (S3 d Hd) as [Hm Hst]. split; auto. destruct Hst as [Hcd|(Hdd & [Hp|Hp])]; [left; auto| |].
+      * right. split; auto. left. destruct (X (d_key d)) eqn:Hxd; [now destruct (H2 _ Hxd) as (_ & Hp' & _)|]. destruct (H1 _ Hxd) as [_ Hkd]. now rewrite (in_progress_same s s' _ Hkd).
+      * destruct (Hpd _ Hp) as [H|[H|H]]; [right; split; auto|right; split; auto|left; auto].
 Qed.
 
 Variable rank : key -> nat.
@@ -99,15 +120,7 @@ Notation BS := (BS rules env F rank).
 
 Lemma concl_same s s' k v : deps s' k = deps s k -> (forall x, In (mkDep x false false) (deps s k) -> stored s' x = stored s x) ->
   concl s k v -> concl s' k v.
-Proof.
-  intros Ed Hs [Hf Hrec]. unfold ImplInc1.concl in *. cbn zeta in *.
-  assert (Hreq : map (stored s') (r_req (rules k)) = map (stored s) (r_req (rules k))).
-  { apply map_ext_in. intros x Hx. apply Hs, Hrec. apply in_or_app. now left. }
-  rewrite Hreq. set (bk := branch_keys (rules k) (map (stored s) (r_req (rules k)))) in *.
-  assert (Hbk : map (stored s') bk = map (stored s) bk).
-  { apply map_ext_in. intros x Hx. apply Hs, Hrec. apply in_or_app. now right. }
-  rewrite Hbk, Ed. split; auto.
-Qed.
+Proof. intros Ed Hs. apply concl_same_gen. intros x Hx. rewrite Ed. auto. Qed.
 
 Lemma BS_change (X : key -> bool) x s s' : is_epoch s' = is_epoch s ->
   (forall k, X k = false -> res_of s' k = res_of s k /\ kind_of s' k = kind_of s k) ->
